@@ -82,6 +82,8 @@ T = [
     ("minmax_chains requires the moved literals themselves to bind the group variables", "C04", ["minmax_chains"], "{ sel(P,V) } :- skill(P,V).\nperson(1).\nskill(1,2).\nskill(1,4).\nres(P,M) :- person(P); M = #max { V: sel(P,V) }; ok(V,X0): cand(X0).\n", [["cand", 1], ["ok", 2]], [["res", 2], ["sel", 2]], [[]], BIJ, ["equiv", "c04"], {}),
     ("math leaves comparisons and aggregate guards with an anonymous variable alone", "C14", ["math"], "{ perm(J,K) } :- dp(J,K).\n:- X = #count { J: perm(J,_) }; _ = #count { J: job(J) }; not _ != X.\n", [["dp", 2], ["job", 1]], [["perm", 2]], [["job(1)", "dp(1,3)", "dp(5,-1)"]], BIJ, ["equiv"], {}),
     ("no domain for a head element whose variable is also a local variable of a body aggregate", "C20", ["symmetry", "minmax_chains", "sum_chains"], "1 >= { p(G,V): d(W,V) } :- g(G); 1 <= #count { W: d(G,W) }.\n:~ p(G,V). [V@1,G]\n", [["d", 2], ["g", 1]], [["p", 2]], [["d(5,5)", "d(2,2)", "d(5,1)", "g(1)", "g(-1)", "g(5)", "g(2)"]], None, ["c20"], {}),
+    ("RuleDependency counts occurrences in rule heads that derive nothing as uses", "C15", ["inline"], "{ sel(A,Y) } :- p(A,Y).\nh(A,S) :- a(A); S = #min { Y: sel(A,Y) }.\nnot h(A,S) :- c(A,S).\nlow(V) :- h(V,S); S < C; C = #count { W: t(V,W) }.\n", [["a", 1], ["c", 2], ["p", 2], ["t", 2]], [["low", 1], ["sel", 2]], [["a(a)", "c(a,9)", "p(a,9)", "t(a,7)"]], SET, ["equiv"], {}),
+    ("RuleDependency counts occurrences in rule heads that derive nothing as uses", "C15", ["inline"], "{ sel(A,Y) } :- p(A,Y).\nh(A,S) :- a(A); S = #sum { Y: sel(A,Y) }.\nfoo(X) :- X = #sum { S,V: h(V,S) }.\n{ x(A): h(A,S), S > 1 } :- a(A).\n", [["a", 1], ["p", 2]], [["foo", 1], ["sel", 2], ["x", 1]], [["a(1)", "p(1,2)", "p(1,3)"]], SET, ["equiv"], {}),
 ]
 
 
